@@ -1,5 +1,6 @@
 import ParryModel.Proto
 import ParryModel.C06.Model
+import ParryModel.C06.Cull
 /-!
 C06 protocol handlers: model evaluation at `Float` (bit-exact against the harness) and exact-`Rat` oracles that
 re-judge the implementation's output against the property, independently of the model functions.
@@ -403,12 +404,19 @@ def e2eCore (dim : Nat) (sizeScale vrel : Rat) (o : ROpts) (out : List String) :
         if !vnear N1 N2.neg (tol5 * 10) then "fail normals-not-opposite" else
         -- the witnesses are `target` apart, along normal1
         let D := W2.sub W1
-        -- (the recorded known finding of gjk::directional_distance: witnesses rebuilt from a non-unique barycentric
-        --  combination on parallel features, off by a rounding-independent amount.  A different failure has its own tag:
-        --  with target > 0 the two witnesses COINCIDE along the normal, i.e. witness1 was left on the inflated surface.)
-        if o.target > gtol * 4 ∧ rabs (D.dot N1) ≤ gtol ∧ (D.sub (N1.smul (D.dot N1))).normSq ≤ gtol * gtol then
-          s!"fail witness1-left-on-the-inflated-surface gap·n={D.dot N1} target={o.target}" else
-        if !vnear D (N1.smul o.target) gtol then s!"fail witnesses-not-target-apart-along-normal |gap|²={D.normSq}" else "pass"
+        -- (a wrong gap ALONG the normal and a tangential slide on parallel features are different failures: only the
+        --  second one is the recorded known finding of gjk::directional_distance)
+        -- (`wd a b`, appended by the harness: real point-query distances of the two witnesses to their OWN shapes at the time
+        --  of impact.  Witnesses that are points of their shapes but not a closest pair are what gjk::directional_distance
+        --  produces when it rebuilds them from a stale simplex; witnesses that are off their shapes are a different failure.)
+        let onShapes : Bool :=
+          match (((out.dropWhile (· ≠ "wd")).drop 1).take 2).filterMap FloatIO.ofHex? with
+          | [a, b] => FloatIO.isFinite a && FloatIO.isFinite b && rabs (q a) ≤ gtol && rabs (q b) ≤ gtol
+          | _ => false
+        if rabs (D.dot N1 - o.target) > gtol then
+          (if onShapes ∧ D.dot N1 > o.target then s!"fail witness-gap-along-normal-is-not-target[witnesses-on-their-shapes,not-a-closest-pair] gap·n={D.dot N1} target={o.target}"
+           else s!"fail witness-gap-along-normal-is-not-target gap·n={D.dot N1} target={o.target}") else
+        if !vnear D (N1.smul o.target) gtol then s!"fail witnesses-not-target-apart-along-normal[tangential-slide] |gap|²={D.normSq}" else "pass"
       if bad toi then "fail nonfinite-toi" else
       if bad dt ∨ ds.any bad ∨ bad d0 then "skip distance-unsupported" else
       let T := q toi
@@ -452,7 +460,13 @@ def bfVerdict (sizeScale vrel : Rat) (o : ROpts) (out : List String) : String :=
   -- below the target (exactly 0 = intersecting, for target 0) at two of the three sample times at least
   let realHit : Bool :=
     let ds := (((out.dropWhile (· ≠ "bfd")).drop 1).take 3).filterMap FloatIO.ofHex?
-    (ds.filter fun d => q d < o.target - tl ∨ (o.target = 0 ∧ q d = 0)).length ≥ 2
+    -- (`bfp`: the distance of the first-hit PAIR of parts alone at six times shortly after its impact.  When present it is
+    --  the pair that has to cross: another part dipping below the target a little later — which is all that `bfd`, the
+    --  distance of the whole composite, can see — says nothing about whether THIS pair's impact was a crossing or an exact
+    --  tie at the target distance, which the broad phase may legitimately resolve either way.)
+    let ps := (((out.dropWhile (· ≠ "bfp")).drop 1).take 6).filterMap FloatIO.ofHex?
+    let below (l : List Float) : Nat := (l.filter fun d => FloatIO.isFinite d && (q d < o.target - tl ∨ (o.target = 0 ∧ q d = 0))).length
+    below ds ≥ 2 ∧ (ps.isEmpty ∨ below ps ≥ 2)
   let inMax (b : Rat) : Bool := b ≤ o.maxToi * (1 - 1 / 1000000) - 1 / 1000000000
   -- `bfl`: the parts cast with the traversal's own frames (what it must reproduce); `bf`: the same casts in world frames
   match bfToken "bfl" out, res with
@@ -480,8 +494,17 @@ def frameVerdict (o : ROpts) (out : List String) : String :=
 
 def e2eOracle (dim : Nat) (sizeScale vrel : Rat) (o : ROpts) (out : List String) : String :=
   let base := e2eCore dim sizeScale vrel o out
-  if base.startsWith "fail" then base else
   let b := bfVerdict sizeScale vrel o out
+  -- a wrong TIME (late / early / missed, by the distance samples) reported by a traversal that reproduces its own parts
+  -- exactly, while the same pair of parts cast from world poses gives another time: the primitive cast of that pair
+  -- depends on the frame it is evaluated in — that is the failure to name (the samples only show its consequence)
+  let timing := ["fail already-closer-than-target-at-toi", "fail earlier-contact", "fail still-apart-at-toi",
+                 "fail none-but-distance-below-target d="].any (fun (p : String) => base.startsWith p)
+  if base.startsWith "fail" ∧ timing ∧ b.startsWith "fail part-cast-depends-on-the-frame" then s!"{b} ({base.drop 5})" else
+  -- the same when both the traversal and its own part casts say `None` while the world-frame cast of a pair hits within max
+  let f0 := frameVerdict o out
+  if base.startsWith "fail" ∧ timing ∧ f0.startsWith "fail part-cast-depends-on-the-frame" then s!"{f0} ({base.drop 5})" else
+  if base.startsWith "fail" then base else
   if b.startsWith "fail" then b else
   let f := frameVerdict o out
   if f.startsWith "fail" then f else base
@@ -577,11 +600,90 @@ def pfree2 : P (Iso2 Float × V2 Float × FShape × Iso2 Float × V2 Float × FS
 def pfreeOut3 : P (Option RHit) := do let h ← pohit3; pure (h.map rhit3)
 def pfreeOut2 : P (Option RHit) := do let h ← pohit2; pure (h.map rhit2)
 
+/-! ### broad-phase box test of the composite cast (`cull3` / `cull2`)
+
+Independent of the model (which follows the code: centre / half-extents / margin / slab loop): the box of the posed shape 2
+is recomputed by brute force from its definition (ball: centre ± r; cuboid: min / max over the posed vertices, exact
+rotation), and the set of times at which the two boxes are within `target` of each other on EVERY axis — a necessary
+condition for the Euclidean distance of anything inside them to be ≤ `target` — is computed by exact interval arithmetic.
+The node must be kept whenever that set meets `[0, max]`, and its weight must not exceed the first such time (the best-first
+search relies on the weight being a lower bound).  Keeping a node that could have been dropped is not an error. -/
+def exactBox (f : Frame) : FShape → Option (V3 Rat × V3 Rat)
+  | .ball r => let R := q r; some (f.t.sub ⟨R, R, R⟩, f.t.add ⟨R, R, R⟩)
+  | .cuboid he =>
+    let H := q3 he
+    let vs : List (V3 Rat) := [1, -1].flatMap fun (sx : Rat) => [1, -1].flatMap fun (sy : Rat) => [1, -1].map fun (sz : Rat) =>
+      f.act ⟨sx * H.x, sy * H.y, sz * H.z⟩
+    match vs with
+    | [] => none
+    | v :: rest => some (rest.foldl (fun (acc : V3 Rat × V3 Rat) p =>
+        (⟨min acc.1.x p.x, min acc.1.y p.y, min acc.1.z p.z⟩, ⟨max acc.2.x p.x, max acc.2.y p.y, max acc.2.z p.z⟩)) (v, v))
+  | _ => none
+
+def cullOracle (dim : Nat) (f : Frame) (v : V3 Rat) (g : FShape) (maxToi target : Rat) (lo hi : V3 Rat) (out : List String) : String :=
+  if !f.unitOk then "skip non-unit-rotation" else
+  if target < 0 ∨ maxToi ≤ 0 then "skip options-outside-domain" else
+  match exactBox f g with
+  | none => "skip shape-not-modelled"
+  | some (blo, bhi) =>
+    withOut (do let m ← pbool; let t ← pfo; pure (m, t)) out fun (mask, toiF) =>
+      if !FloatIO.isFinite toiF then "fail nonfinite-weight" else
+      let toi := q toiF
+      let axes : List (Rat × Rat × Rat) :=   -- (L, U, v): t·v must lie in [L, U]
+        [(lo.x - bhi.x - target, hi.x - blo.x + target, v.x), (lo.y - bhi.y - target, hi.y - blo.y + target, v.y)] ++
+        (if dim = 3 then [(lo.z - bhi.z - target, hi.z - blo.z + target, v.z)] else [])
+      let scale : Rat := 1 + normAbs lo + normAbs hi + normAbs blo + normAbs bhi + target
+      let tolA := tolDefault * scale
+      -- axes without motion: signed room (negative: never within target on that axis)
+      let room0 : Rat := (axes.filter fun a => a.2.2 = 0).foldl (fun m a => min m (min (-a.1) a.2.1)) (scale * 4)
+      -- axes with motion: the time interval
+      let ivs : List (Rat × Rat) := (axes.filter fun a => a.2.2 ≠ 0).map fun a =>
+        let t1 := a.1 / a.2.2; let t2 := a.2.1 / a.2.2; (min t1 t2, max t1 t2)
+      let t0 := ivs.foldl (fun m i => max m i.1) 0
+      let t1 := ivs.foldl (fun m i => min m i.2) maxToi
+      -- rounding of the box corners moves an interval end by about tolA / |v|
+      let tolT := tolDefault * (1 + rabs t0) + (ivs.zip (axes.filter fun a => a.2.2 ≠ 0)).foldl (fun m ia => max m (tolA / rabs ia.2.2.2)) 0
+      if toi < 0 then "fail negative-weight" else
+      if room0 ≥ tolA ∧ t1 - t0 ≥ tolT then
+        if !mask then s!"fail node-culled-although-the-boxes-come-within-target-distance first-time={t0} target={target}"
+        else if toi > t0 + tolT then s!"fail weight-above-the-first-time-within-target weight={toi} first-time={t0}"
+        else "pass"
+      else if room0 ≤ -tolA ∨ t1 - t0 ≤ -tolT then "pass"     -- nothing is due: the boxes are never within target on [0, max]
+      -- a tie within rounding: dropping the node cannot be blamed, but a kept node still needs an admissible weight
+      else if mask then (if toi > t0 + tolT then s!"fail weight-above-the-first-time-within-target weight={toi} first-time={t0}" else "pass")
+      else "skip tie-within-rounding"
+
 def fiso3 (m : Iso3 Float) : String := s!"{ff m.qi} {ff m.qj} {ff m.qk} {ff m.qw} {fv3 m.t}"
 def fiso2 (m : Iso2 Float) : String := s!"{ff m.re} {ff m.im} {fv2 m.t}"
 
 def handler (fn : String) : Option Handler :=
   match fn with
+  | "cull3" => some {
+      model := fun a => run (do
+        let m ← piso3; let v ← pv3; let g ← pshape 3; let mx ← pf; let tg ← pf; let lo ← pv3; let hi ← pv3
+        let r : Option (Bool × Float) := match g with
+          | .ball r => some (cullBall3 m r ⟨lo, hi⟩ v mx tg)
+          | .cuboid he => some (cullCuboid3 m he ⟨lo, hi⟩ v mx tg)
+          | _ => none
+        pure (match r with | some (k, w) => s!"{fb k} {ff w}" | none => "unmodelled-shape")) a
+      oracle := fun a out => match run (do let m ← piso3; let v ← pv3; let g ← pshape 3; let mx ← pf; let tg ← pf; let lo ← pv3; let hi ← pv3; pure (m, v, g, mx, tg, lo, hi)) a with
+        | some (m, v, g, mx, tg, lo, hi) =>
+          if !(FloatIO.isFinite mx && FloatIO.isFinite tg) then "skip options-outside-domain" else
+          cullOracle 3 (frame3 m) (q3 v) g (q mx) (q tg) (q3 lo) (q3 hi) out
+        | none => "skip bad-args" }
+  | "cull2" => some {
+      model := fun a => run (do
+        let m ← piso2; let v ← pv2; let g ← pshape 2; let mx ← pf; let tg ← pf; let lo ← pv2; let hi ← pv2
+        let r : Option (Bool × Float) := match g with
+          | .ball r => some (cullBall2 m r ⟨lo, hi⟩ v mx tg)
+          | .cuboid he => some (cullCuboid2 m ⟨he.x, he.y⟩ ⟨lo, hi⟩ v mx tg)
+          | _ => none
+        pure (match r with | some (k, w) => s!"{fb k} {ff w}" | none => "unmodelled-shape")) a
+      oracle := fun a out => match run (do let m ← piso2; let v ← pv2; let g ← pshape 2; let mx ← pf; let tg ← pf; let lo ← pv2; let hi ← pv2; pure (m, v, g, mx, tg, lo, hi)) a with
+        | some (m, v, g, mx, tg, lo, hi) =>
+          if !(FloatIO.isFinite mx && FloatIO.isFinite tg) then "skip options-outside-domain" else
+          cullOracle 2 (frame2 m) (e2 (q2 v)) g (q mx) (q tg) (e2 (q2 lo)) (e2 (q2 hi)) out
+        | none => "skip bad-args" }
   | "ray_ball3" => some {
       model := fun a => run (do
         let c ← pv3; let r ← pf; let o ← pv3; let d ← pv3; let solid ← pbool
@@ -791,6 +893,7 @@ def handler (fn : String) : Option Handler :=
       oracle := fun a out => match run pfree3 a with
         | some (p1, v1, g1, p2, v2, g2, o) =>
           if !optsOk o then "skip options-outside-domain" else
+          if !(frame3 p1).unitOk ∨ !(frame3 p2).unitOk then "skip non-unit-rotation" else
           let sz := 1 + g1.size + g2.size + normAbs (q3 p1.t) + normAbs (q3 p2.t) + q o.target
           e2eOracle 3 sz (normAbs ((q3 v2).sub (q3 v1))) (ropts o) out
         | none => "skip bad-args" }
@@ -799,6 +902,7 @@ def handler (fn : String) : Option Handler :=
       oracle := fun a out => match run pfree2 a with
         | some (p1, v1, g1, p2, v2, g2, o) =>
           if !optsOk o then "skip options-outside-domain" else
+          if !(frame2 p1).unitOk ∨ !(frame2 p2).unitOk then "skip non-unit-rotation" else
           let sz := 1 + g1.size + g2.size + normAbs (e2 (q2 p1.t)) + normAbs (e2 (q2 p2.t)) + q o.target
           e2eOracle 2 sz (normAbs (e2 ((q2 v2).sub (q2 v1)))) (ropts o) out
         | none => "skip bad-args" }
